@@ -44,12 +44,13 @@ type Clause struct {
 	Line int
 	Name string // for let
 	// assigns: list of expressions, or nothing
-	Assigns  []ast.Expr
-	Nothing  bool
-	Like     *ast.CallExpr // like: callee contract instantiated with these arguments
-	Lit      string        // at call K "lit": the call site is addressed by a string literal argument
-	HasLit   bool
-	NoResult bool
+	Assigns   []ast.Expr
+	Nothing   bool
+	Like      *ast.CallExpr // like: callee contract instantiated with these arguments
+	Lit       string        // at call K "lit": the call site is addressed by a string literal argument
+	HasLit    bool
+	CheckOnly bool // asserted, not assumed
+	NoResult  bool
 }
 
 type Contract struct {
@@ -415,6 +416,21 @@ func parseClause(c *Contract, t string, line int) error {
 		// the n-th call of <key> in source order; use()/unfold() hints cost nothing
 		atTags, rest := parseTags(rest)
 		f := strings.Fields(rest)
+		// "at check K ...": like "at call", but the clause is only asserted, not
+		// assumed afterwards (for clauses that follow from the path anyway: assuming
+		// them only adds terms to every later query of the function)
+		checkOnly := false
+		if len(f) > 0 && f[0] == "check" {
+			checkOnly = true
+			rest = strings.Replace(rest, "check", "call", 1)
+			f[0] = "call"
+			defer func() {
+				if n := len(c.Clauses); n > 0 && c.Clauses[n-1].Kind == "at" {
+					c.Clauses[n-1].CheckOnly = true
+				}
+			}()
+		}
+		_ = checkOnly
 		if len(f) >= 3 && f[0] == "call" && strings.HasPrefix(f[2], "\"") {
 			// at call <key> "literal": E  - the call of <key> that has this string
 			// literal among its arguments (must be exactly one): an address that
